@@ -91,6 +91,7 @@ structure AllocOK (m : MddMgr) (u : Nat) (m1 : MddMgr) : Prop where
   le_max : u ≤ m1.max
   fresh : m.tbl.node? u = none
   notFree : u ∉ m1.free
+  maxle : m.max ≤ m1.max
 
 theorem mAllocate_spec (m : MddMgr) (h : MInv m) (u : Nat) (m1 : MddMgr)
     (ha : mAllocate m = (.ok u, m1)) : AllocOK m u m1 := by
@@ -106,7 +107,7 @@ theorem mAllocate_spec (m : MddMgr) (h : MInv m) (u : Nat) (m1 : MddMgr)
       | none => rfl
       | some n => have := h.maxOK _ _ hn; omega
     refine ⟨⟨h.wf, h.pred, h.refOne, h.refDom, ?_, ?_, ?_, ?_, h.cache⟩, rfl, rfl, rfl, rfl, ?_, ?_,
-      hfresh, ?_⟩
+      hfresh, ?_, Nat.le_succ _⟩
     · show 1 ≤ m.max + 1; omega
     · intro u n hn; have := h.maxOK _ _ hn; show u ≤ m.max + 1; omega
     · intro f hf; rw [hfree] at hf; simp at hf
@@ -122,7 +123,7 @@ theorem mAllocate_spec (m : MddMgr) (h : MInv m) (u : Nat) (m1 : MddMgr)
         intro s
         obtain ⟨h2, hmx, hnone⟩ := h.freeOK p hp
         refine ⟨⟨h.wf, h.pred, h.refOne, h.refDom, h.maxGe, h.maxOK, ?_, ?_, h.cache⟩, rfl, rfl, rfl,
-          rfl, h2, hmx, hnone, ?_⟩
+          rfl, h2, hmx, hnone, ?_, Nat.le_refl _⟩
         · intro f hf
           exact h.freeOK f (List.mem_of_mem_erase hf)
         · exact h.freeNodup.erase p
